@@ -70,6 +70,11 @@ def collisions():
     C.append(('primary-aux-aux-primary', [('S1', [M('get', 'S1.get')]), ('A1', [M('get', 'A1.get')], 'aux'), ('A2', [M('get', 'A2.get')], 'aux'),
                                           ('S2', [M('get', 'S2.get', _in_message_name='{urn:vf:beta}get', _out_message_name='{urn:vf:beta}getResponse')])]))
     C.append(('same-named-services-same-method', [('S', [M('get', 'Sa.get')]), ('S', [M('get', 'Sb.get')])]))
+    # the same clashes inside ONE service class (both declaration orders)
+    C.append(('one-service-operation-name-vs-name', [('S1', [M('f1', 'S1.f1', _operation_name='get'), M('get', 'S1.get')])]))
+    C.append(('one-service-name-vs-operation-name', [('S1', [M('get', 'S1.get'), M('f1', 'S1.f1', _operation_name='get')])]))
+    C.append(('one-service-two-operation-names', [('S1', [M('f1', 'S1.f1', _operation_name='op'), M('f2', 'S1.f2', _operation_name='op')])]))
+    C.append(('one-service-in-message-name-vs-name', [('S1', [M('get', 'S1.get'), M('f1', 'S1.f1', _in_message_name='get')]), ('S2', [M('ge', 'S2.ge')])]))
     C.append(('two-operation-names', [('S1', [M('f1', 'S1.f1', _operation_name='op')]), ('S2', [M('f2', 'S2.f2', _operation_name='op')])]))
     return C
 
